@@ -1419,7 +1419,9 @@ class LinearOperator(object):
         :return: The diagonal (or batch of diagonals) of :math:`\mathbf A`.
         """
 
-        if not offset == 0 and ((dim1 == -2 and dim2 == -1) or (dim1 == -1 and dim2 == -2)):
+        ndimension = self.ndimension()
+        matrix_dims = {ndimension - 2, ndimension - 1}
+        if offset != 0 or {dim1 % ndimension, dim2 % ndimension} != matrix_dims:
             raise NotImplementedError(
                 "LinearOperator#diagonal is only implemented for when :attr:`dim1` and :attr:`dim2` are equal "
                 "to -2 and -1, respectfully, and :attr:`offset = 0`. "
@@ -2662,6 +2664,9 @@ class LinearOperator(object):
             dim2 = ndimension + dim2
         if dim1 >= ndimension or dim2 >= ndimension or not isinstance(dim1, int) or not isinstance(dim2, int):
             raise RuntimeError("Invalid dimension")
+
+        if dim1 == dim2:
+            return self
 
         # Batch case
         if dim1 < ndimension - 2 and dim2 < ndimension - 2:
